@@ -30,6 +30,8 @@
 (*            gtree mkdir "" --dry-run: a stray argument like any other)    *)
 (*   file "null": stdin is /dev/null (cron, CI): the empty document          *)
 (*   file "devstdin": --file /dev/stdin (opens, cannot seek): like stdin     *)
+(*   file "dollar": an existing file named in$HOME.md; target "s$HOME": a     *)
+(*     flag's value is a file name as it stands, no shell-like expansion     *)
 (*   target "reg/sub": a path below a regular file (Stat fails, not with     *)
 (*            "does not exist"): mkdir and verify fail, nothing crashes      *)
 (*   desc:  template --description                                          *)
@@ -106,6 +108,7 @@ FlagToks(inv) ==
                [] inv.file = "existing" -> <<FlagTok("file", "in.md", sp)>>
                [] inv.file = "missing" -> <<FlagTok("file", "nope.md", sp)>>
                [] inv.file = "devstdin" -> <<FlagTok("file", "/dev/stdin", sp)>>
+               [] inv.file = "dollar" -> <<FlagTok("file", "in$HOME.md", sp)>>
                [] OTHER -> <<>>)
          \o Switch("dry-run", inv.dryrun, inv)
          \o [i \in 1..Len(SeqOfSet(inv.exts)) |-> FlagTok("extension", SeqOfSet(inv.exts)[i], sp)]
@@ -173,7 +176,7 @@ Meaning(inv) ==
              \cup {<<"massive-timeout", "0s">> : x \in IF inv.usage = "timeout0" THEN {1} ELSE {}}
              \cup {<<"massive-timeout", "soon">> : x \in IF inv.usage = "timeoutbad" THEN {1} ELSE {}}
              \cup {<<"watch", "true">> : x \in IF inv.watch THEN {1} ELSE {}}
-             \cup {<<"file", CASE inv.file = "dash" -> "-" [] inv.file = "existing" -> "in.md" [] inv.file = "devstdin" -> "/dev/stdin" [] OTHER -> "nope.md">> : x \in IF inv.file \notin {"stdin", "null"} THEN {1} ELSE {}}
+             \cup {<<"file", CASE inv.file = "dash" -> "-" [] inv.file = "existing" -> "in.md" [] inv.file = "devstdin" -> "/dev/stdin" [] inv.file = "dollar" -> "in$HOME.md" [] OTHER -> "nope.md">> : x \in IF inv.file \notin {"stdin", "null"} THEN {1} ELSE {}}
              \cup {<<"dry-run", "true">> : x \in IF inv.dryrun THEN {1} ELSE {}}
              \cup {<<"extension", e>> : e \in inv.exts}
              \cup {<<"target-dir", inv.target>> : x \in IF inv.target # "" THEN {1} ELSE {}}
